@@ -148,15 +148,15 @@ Proof.
     split_lit c; try reflexivity. exfalso; apply Hne; reflexivity.
 Qed.
 
-Lemma cursor_total s : exists r, cursor_of_str s = r /\ r <> Panic /\ r <> Abort.
+Lemma cursor_total s : exists r, cursor_of_str s = r /\ r <> Panic /\ r <> Abort /\ r <> Hang.
 Proof.
   eexists; split; [reflexivity|].
   unfold cursor_of_str.
   destruct s as [|c r].
-  - destruct (parse_usize []); split; discriminate.
+  - destruct (parse_usize []); repeat split; discriminate.
   - destruct (c =? 45).
-    + destruct (parse_isize (c :: r)) as [z|]; [destruct (0 <? z)%Z|]; split; discriminate.
-    + destruct (parse_usize (c :: r)); split; discriminate.
+    + destruct (parse_isize (c :: r)) as [z|]; [destruct (0 <? z)%Z|]; repeat split; discriminate.
+    + destruct (parse_usize (c :: r)); repeat split; discriminate.
 Qed.
 
 Definition cursor_wf (c : cursor) : Prop :=
@@ -193,21 +193,21 @@ Definition lower_with (hi : N -> str) (c : N) : str := if c <? 128 then [ascii_l
 Lemma type_roundtrip hi t : type_of_str (lower_with hi) (str_of_type t) = Ok t.
 Proof. destruct t; vm_compute; reflexivity. Qed.
 
-Lemma type_total lower s : type_of_str lower s <> Panic /\ type_of_str lower s <> Abort.
-Proof. unfold type_of_str. destruct (assoc _ _); split; discriminate. Qed.
+Lemma type_total lower s : type_of_str lower s <> Panic /\ type_of_str lower s <> Abort /\ type_of_str lower s <> Hang.
+Proof. unfold type_of_str. destruct (assoc _ _); repeat split; discriminate. Qed.
 
 Lemma kind_roundtrip k : kind_of_str (str_of_kind k) = Ok k.
 Proof. destruct k; vm_compute; reflexivity. Qed.
 
-Lemma kind_total s : kind_of_str s <> Panic /\ kind_of_str s <> Abort.
-Proof. unfold kind_of_str. destruct (assoc _ _); split; discriminate. Qed.
+Lemma kind_total s : kind_of_str s <> Panic /\ kind_of_str s <> Abort /\ kind_of_str s <> Hang.
+Proof. unfold kind_of_str. destruct (assoc _ _); repeat split; discriminate. Qed.
 
 Lemma format_roundtrip f : exists f', format_of_str (str_of_format f) = Ok f' /\
   match f, f' with FJson _, FJson _ => True | FCbor, FCbor => True | FCsv, FCsv => True | _, _ => False end.
 Proof. destruct f; eexists; (split; [vm_compute; reflexivity|exact I]). Qed.
 
-Lemma format_total s : format_of_str s <> Panic /\ format_of_str s <> Abort.
-Proof. unfold format_of_str. destruct (assoc _ _); split; discriminate. Qed.
+Lemma format_total s : format_of_str s <> Panic /\ format_of_str s <> Abort /\ format_of_str s <> Hang.
+Proof. unfold format_of_str. destruct (assoc _ _); repeat split; discriminate. Qed.
 
 (* ------------------------------------------------------------------ *)
 (* temporary identifiers                                               *)
@@ -550,17 +550,17 @@ Proof. vm_compute. repeat split. Qed.
 (* ------------------------------------------------------------------ *)
 (* the CSV row decoder                                                 *)
 
-Definition safeo {A} (o : outcome A) : Prop := o <> Panic /\ o <> Abort.
+Definition safeo {A} (o : outcome A) : Prop := o <> Panic /\ o <> Abort /\ o <> Hang.
 
 Lemma safeo_ok {A} (a : A) : safeo (Ok a).
-Proof. split; discriminate. Qed.
+Proof. repeat split; discriminate. Qed.
 Lemma safeo_err {A} : safeo (@Err A).
-Proof. split; discriminate. Qed.
+Proof. repeat split; discriminate. Qed.
 
 Lemma bind_safe {A B} (o : outcome A) (f : A -> outcome B) :
   safeo o -> (forall a, safeo (f a)) -> safeo (bind o f).
 Proof.
-  intros [H1 H2] Hf. destruct o; cbn [bind]; [apply Hf|apply safeo_err|contradiction|contradiction].
+  intros (H1 & H2 & H3) Hf. destruct o; cbn [bind]; [apply Hf|apply safeo_err|contradiction|contradiction|contradiction].
 Qed.
 
 Lemma cursor_safe s : safeo (cursor_of_str s).
@@ -726,6 +726,79 @@ Proof.
   - destruct depth; [lia|]. cbn [cbor_value]. apply IH. lia.
 Qed.
 
+Lemma include_stdin_safe o : safeo (include_stdin false o).
+Proof. apply safeo_err. Qed.
+
+Lemma include_stdin_old_refuted : include_stdin true true = Hang.
+Proof. reflexivity. Qed.
+
+(* ------------------------------------------------------------------ *)
+(* running time                                                        *)
+
+Lemma dedup_cost_ids l : forall count, forallb d_hasid l = true -> dedup_cost count l = 0.
+Proof.
+  induction l as [|d l IH]; intros count H; [reflexivity|].
+  cbn [forallb] in H. apply andb_prop in H. destruct H as [Hd Hl].
+  cbn [dedup_cost]. rewrite Hd, IH by exact Hl. reflexivity.
+Qed.
+
+(* n items without id under one key: every item is compared with all earlier ones *)
+Lemma dedup_cost_same_key k n : forall count,
+  2 * dedup_cost count (repeat {| d_key := k; d_hasid := false |} n)
+  = N.of_nat n * (N.of_nat n - 1) + 2 * count k * N.of_nat n.
+Proof.
+  induction n as [|n IH]; intro count.
+  - cbn. lia.
+  - cbn [repeat dedup_cost d_hasid d_key]. rewrite N.mul_add_distr_l, IH.
+    rewrite Nat.eqb_refl. rewrite Nat2N.inj_succ.
+    set (m := N.of_nat n). set (c := count k). clearbody m c.
+    destruct (N.eq_dec m 0) as [->|Hm]; [lia|].
+    assert (exists m', m = m' + 1) as (m' & ->) by (exists (m - 1); lia).
+    replace (m' + 1 - 1) with m' by lia. replace (N.succ (m' + 1) - 1) with (m' + 1) by lia. nia.
+Qed.
+
+(* items under pairwise different keys that were not used before cost nothing *)
+Lemma dedup_cost_fresh_keys l : forall count,
+  NoDup (map d_key l) -> (forall d, In d l -> count (d_key d) = 0) -> dedup_cost count l = 0.
+Proof.
+  induction l as [|d l IH]; intros count Hnd H0; [reflexivity|].
+  cbn [dedup_cost]. cbn [map] in Hnd. inversion Hnd as [|? ? Hnotin Hnd']; subst.
+  rewrite (H0 d (or_introl eq_refl)). rewrite IH; [destruct (d_hasid d); reflexivity|exact Hnd'|].
+  intros e He. destruct (Nat.eqb_spec (d_key e) (d_key d)) as [E|_].
+  - exfalso. apply Hnotin. rewrite <- E. apply in_map. exact He.
+  - apply H0. right. exact He.
+Qed.
+
+Lemma load_cost_same_key n :
+  load_cost (N.of_nat n) false true
+  = N.of_nat n + dedup_cost (fun _ => 0) (repeat {| d_key := 0; d_hasid := false |} n).
+Proof.
+  unfold load_cost. f_equal.
+  pose proof (dedup_cost_same_key 0 n (fun _ => 0)) as H.
+  rewrite N.mul_0_r, N.mul_0_l, N.add_0_r in H. rewrite <- H.
+  rewrite N.mul_comm, N.div_mul by lia. reflexivity.
+Qed.
+
+Lemma superlinear_same_key n : 4 <= n -> superlinear n false true = true.
+Proof.
+  intro Hn. unfold superlinear, load_cost. apply N.ltb_lt.
+  assert (exists m, n * (n - 1) = 2 * m) as (m & Hm).
+  { destruct (N.Even_or_Odd n) as [[k Hk]|[k Hk]].
+    - exists (k * (n - 1)). lia.
+    - exists (n * k). assert (n - 1 = 2 * k) as -> by lia. lia. }
+  assert (exists m4, 4 * n * (4 * n - 1) = 2 * m4 /\ m4 = 8 * n * n - 2 * n) as (m4 & Hm4 & Em4).
+  { exists (8 * n * n - 2 * n). split; [|reflexivity]. nia. }
+  rewrite Hm, Hm4. rewrite (N.mul_comm 2 m), (N.mul_comm 2 m4), !N.div_mul by lia.
+  subst m4. nia.
+Qed.
+
+Lemma superlinear_linear n hasid samekey :
+  hasid = true \/ samekey = false -> superlinear n hasid samekey = false.
+Proof.
+  intro H. unfold superlinear, load_cost. apply N.ltb_ge.
+  destruct H as [-> | ->]; [|destruct hasid]; lia.
+Qed.
+
 Lemma cbor_value_ok stack depth : (depth <= stack)%nat -> cbor_value stack depth = Ok tt.
 Proof.
   revert depth. induction stack as [|st IH]; intros depth H.
@@ -766,4 +839,101 @@ Proof.
   split; [exact Ha|].
   assert (N.max (slots st) B = B) as E by (unfold B, justified; lia).
   rewrite E in Hs. exact Hs.
+Qed.
+
+(* ------------------------------------------------------------------ *)
+(* CSV: the rows the library writes for simple selectors are read back  *)
+
+Definition nosemi (s : str) : Prop := has_semi s = false.
+
+Lemma split_semi_nosemi s : forall cur, has_semi s = false -> split_semi s cur = [rev cur ++ s].
+Proof.
+  induction s as [|c s IH]; intros cur H.
+  - cbn. rewrite app_nil_r. reflexivity.
+  - cbn [has_semi existsb] in H. apply orb_false_elim in H. destruct H as [Hc Hs].
+    cbn [split_semi]. rewrite Hc. rewrite IH by exact Hs. cbn [rev]. rewrite <- app_assoc. reflexivity.
+Qed.
+
+Lemma split_nosemi s : nosemi s -> split s = [s].
+Proof. intro H. unfold split. rewrite split_semi_nosemi by exact H. reflexivity. Qed.
+
+Lemma digits_nosemi s : forallb is_digit s = true -> has_semi s = false.
+Proof.
+  induction s as [|c s IH]; intro H; [reflexivity|].
+  cbn [forallb] in H. apply andb_prop in H. destruct H as [Hc Hs].
+  cbn [has_semi existsb]. fold (has_semi s). rewrite IH by exact Hs. rewrite orb_false_r.
+  unfold is_digit in Hc. apply andb_prop in Hc. destruct Hc as [_ Hc]. apply N.leb_le in Hc.
+  apply N.eqb_neq. lia.
+Qed.
+
+Lemma dec_nosemi n : has_semi (dec n) = false.
+Proof. apply digits_nosemi. apply dec_fuel_digits. Qed.
+
+Lemma str_of_cursor_nosemi c : has_semi (str_of_cursor c) = false.
+Proof.
+  destruct c as [n|z]; cbn [str_of_cursor]; [apply dec_nosemi|].
+  destruct (z =? 0)%Z; [reflexivity|].
+  destruct (z <? 0)%Z; [|apply dec_nosemi].
+  cbn [has_semi existsb]. fold (has_semi (dec (Z.to_N (- z)))). rewrite dec_nosemi. reflexivity.
+Qed.
+
+Lemma str_of_cursor_nonempty c : is_empty (str_of_cursor c) = false.
+Proof.
+  destruct c as [n|z]; cbn [str_of_cursor].
+  - destruct (dec_head_digit n) as (c & r & -> & _). reflexivity.
+  - destruct (z =? 0)%Z; [reflexivity|]. destruct (z <? 0)%Z; [reflexivity|].
+    destruct (dec_head_digit (Z.to_N z)) as (c & r & -> & _). reflexivity.
+Qed.
+
+Definition simple_wf (b : sbuild) : Prop :=
+  match b with
+  | BText r cb ce => nosemi r /\ cursor_wf cb /\ cursor_wf ce
+  | BAnn a None => nosemi a
+  | BAnn a (Some (cb, ce)) => nosemi a /\ cursor_wf cb /\ cursor_wf ce
+  | BRes r => nosemi r
+  | BSet s => nosemi s
+  | BKey s k => nosemi s /\ nosemi k /\ k <> []
+  | BDat s d => nosemi s /\ nosemi d /\ d <> []
+  | BComplex _ _ => False
+  end.
+
+Lemma cursor_pair_roundtrip cb ce : cursor_wf cb -> cursor_wf ce ->
+  cursor_pair (str_of_cursor cb) (str_of_cursor ce) = Ok (cb, ce).
+Proof. intros Hb He. unfold cursor_pair. rewrite !cursor_roundtrip by assumption. reflexivity. Qed.
+
+Lemma csv_simple_roundtrip id data set b :
+  data <> [] -> nosemi data -> nosemi set -> simple_wf b ->
+  csv_row false (row_of_simple id data set b)
+  = Ok {| ab_id := opt id; ab_data := [(set, data)]; ab_target := Some b |}.
+Proof.
+  intros Hd Hnd Hns Hb. unfold csv_row.
+  assert (forall r, c_data r = data -> is_empty (c_data r) = false) as Hde.
+  { intros r ->. destruct data; [contradiction|reflexivity]. }
+  destruct b as [r cb ce|a [[cb ce]|]|r|s|s k|s d|k l]; cbn [simple_wf] in Hb; try contradiction;
+    cbn [row_of_simple c_id c_data c_set c_kind c_res c_ann c_dset c_begin c_end c_key c_tdata];
+    (rewrite (Hde _ eq_refl) || (destruct data; [contradiction|cbn [is_empty]]));
+    rewrite ?(split_nosemi _ Hnd), ?(split_nosemi _ Hns).
+  - destruct Hb as (Hr & Hcb & Hce).
+    change (kinds_of (split (str_of_kind KText))) with (Ok [KText]). cbn [bind kind_is_complex andb negb is_empty_list].
+    unfold nosemi in Hr. rewrite Hr, !str_of_cursor_nosemi. cbn [has_semi existsb or_empty opt].
+    rewrite cursor_pair_roundtrip by assumption. reflexivity.
+  - destruct Hb as (Ha & Hcb & Hce).
+    change (kinds_of (split (str_of_kind KAnnotation))) with (Ok [KAnnotation]). cbn [bind kind_is_complex andb negb is_empty_list].
+    unfold nosemi in Ha. rewrite Ha, !str_of_cursor_nosemi. cbn [has_semi existsb or_empty opt].
+    rewrite !str_of_cursor_nonempty. cbn [negb andb].
+    rewrite cursor_pair_roundtrip by assumption. reflexivity.
+  - change (kinds_of (split (str_of_kind KAnnotation))) with (Ok [KAnnotation]). cbn [bind kind_is_complex andb negb is_empty_list].
+    unfold nosemi in Hb. rewrite Hb. reflexivity.
+  - change (kinds_of (split (str_of_kind KResource))) with (Ok [KResource]). cbn [bind kind_is_complex andb negb is_empty_list].
+    unfold nosemi in Hb. rewrite Hb. reflexivity.
+  - change (kinds_of (split (str_of_kind KDataSet))) with (Ok [KDataSet]). cbn [bind kind_is_complex andb negb is_empty_list].
+    unfold nosemi in Hb. rewrite Hb. reflexivity.
+  - destruct Hb as (Hs & Hk & Hkne).
+    change (kinds_of (split (str_of_kind KDataKey))) with (Ok [KDataKey]). cbn [bind kind_is_complex andb negb is_empty_list].
+    unfold nosemi in Hs, Hk. rewrite Hs. cbn [has_semi existsb].
+    destruct k as [|k0 k]; [contradiction|]. cbn [opt or_empty]. rewrite Hk. reflexivity.
+  - destruct Hb as (Hs & Hx & Hxne).
+    change (kinds_of (split (str_of_kind KData))) with (Ok [KData]). cbn [bind kind_is_complex andb negb is_empty_list].
+    unfold nosemi in Hs, Hx. rewrite Hs. cbn [has_semi existsb].
+    destruct d as [|d0 d]; [contradiction|]. cbn [opt or_empty]. rewrite Hx. reflexivity.
 Qed.
